@@ -82,7 +82,7 @@ def gen_history(rng, cfg, nops, dom=20, ops_filter=None, bulk_max=8):
     return lines
 
 class SObs:
-    __slots__ = ('idx', 'res', 'ret', 'conts', 'cmps', 'oracle', 'faults', 'raw')
+    __slots__ = ('idx', 'res', 'ret', 'conts', 'cmps', 'oracle', 'faults', 'raw', 'allocs')
 
 def parse_line(line):
     o = SObs(); o.raw = line
